@@ -1124,6 +1124,56 @@ def warm_order(s):
 SCRIPTS["warm-order"] = warm_order
 
 
+MOODS = ["happy", "lonely", "errory", "scary", "unwelcome", "", None, "pruney", "crowded", "HAPPY", "happy ", "\u00e9rrory"]
+
+
+def moods(s):
+    """C15 C17 (C08): every combination of number of sides (1-4) and reported moods -- known, unknown, empty, missing,
+    the server's own result words, look-alikes -- on mailboxes with and without a nameplate, retired by the last close;
+    with a usage database the record must be classified by the documented precedence, and no combination may make
+    the close fail"""
+    r = s.rng
+    app = r.choice(["a1", "a2"])
+    for i in range(r.choice([3, 4, 5])):
+        k = r.choice([1, 2, 2, 2, 3, 4])
+        use_np = r.random() < 0.4
+        mb = "mm%d" % i
+        name = str(r.choice([1, 2, 3]) + 3 * i)
+        cs = []
+        for j in range(k):
+            c = Client(s, app, "s%d" % (j + 1))
+            if use_np and j < 2:
+                mb = _claimed_mb(c.cmd({"type": "claim", "nameplate": name})) or mb
+            c.cmd({"type": "open", "mailbox": mb})
+            if r.random() < 0.5:
+                c.cmd({"type": "add", "phase": "p", "body": "0%d" % j})
+            cs.append(c)
+            if r.random() < 0.3:
+                s.emit({"k": "advance", "dt": r.choice([1, 8, 61]), "fault": False})
+        if use_np:
+            for c in cs[:2]:
+                if r.random() < 0.7:
+                    c.cmd({"type": "release"})
+        order = list(cs)
+        r.shuffle(order)
+        for c in order:
+            m = r.choice(MOODS)
+            msg = {"type": "close"}
+            if m is not None:
+                msg["mood"] = m
+            if r.random() < 0.3:
+                msg["mailbox"] = mb
+            c.cmd(msg)
+            if r.random() < 0.6:
+                c.drop()
+        for c in cs:
+            c.drop()
+        pause(s)
+
+
+SCRIPTS["moods"] = moods
+
+
 def run(name, session):
     SCRIPTS[name](session)
 
